@@ -180,7 +180,9 @@ def run(ctx):
             vals = boundary_values(rng, w, extra_random=1 if quick else 6)
             if quick:
                 core_vals = [x for x in vals if abs(abs(x) - (1 << (w - 1))) <= 2 or abs(abs(x) - (1 << w)) <= 2 or abs(x) <= 2]
-                vals = sorted(set(rng.sample(core_vals, min(len(core_vals), 9)) + rng.sample(vals, 3)))
+                alias = [x + s * (1 << k) for k in (w, 32, 64) for x in (0, 1) for s in (1, -1)]
+                vals = sorted(set(rng.sample(core_vals, min(len(core_vals), 9)) + rng.sample(vals, 3)
+                                  + rng.sample(alias, 5)))
             for v in vals:
                 if kind == "bool":
                     errv = rng.choice([0, 1])
